@@ -81,7 +81,28 @@ def run(prog):
         for side, ch in (("low", lo), ("high", hi)):
             c = strip(ch)
             if not (mir.is_call(c, "smooth_helper") and _is_level_plus_one(c[2][2], cur) and c[2][3] == ("param", 4)):
-                errs.append("%s child is not smooth_helper(_, current + 1, total): %s" % (side, show(ch)))
+                lvl_calls = {x[1].name for x in mir.subterms(c[2][2]) if mir.is_call(x)} if mir.is_call(c, "smooth_helper") and len(c[2]) > 3 else set()
+                if mir.is_call(c, "smooth_helper") and len(c[2]) > 3:
+                    # ... and what the closures the level is computed with call (`var.map_or(total, |v| v.value_usize())`)
+                    for x in mir.subterms(c[2][2]):
+                        if isinstance(x, tuple) and x and x[0] == "agg" and x[1] == "closure":
+                            for g_ in prog.lib_fns:
+                                if g_.npath == x[2]:
+                                    lvl_calls |= {cs_.callee.name for cs_ in g_.terms.calls}
+                def plain_arith(t_):
+                    t_ = strip(t_)
+                    if t_ == cur or (isinstance(t_, tuple) and t_ and t_[0] == "const"):
+                        return True
+                    return isinstance(t_, tuple) and bool(t_) and t_[0] == "bin" and plain_arith(t_[2]) and plain_arith(t_[3])
+                if mir.is_call(c, "smooth_helper") and c[2][3] == ("param", 4) and not (lvl_calls & {"value_usize", "value", "new_usize"}) and \
+                        not plain_arith(c[2][2]):
+                    # the child's level comes from somewhere else (a helper that looks the variable's level up): not read here
+                    errs.append("?%s child is smoothed from level %s, which this rule does not read" % (side, show(c[2][2])[:50]))
+                else:
+                    errs.append(("%s child is smoothed from a level computed from the *number of a label* (%s): labels and levels "
+                                 "coincide only under the identity order" % (side, show(c[2][2])[:50]))
+                                if (lvl_calls & {"value_usize", "value", "new_usize"}) else
+                                "%s child is not smooth_helper(_, current + 1, total): %s" % (side, show(ch)))
                 kids.append(None)
             else:
                 kids.append(strip(c[2][1]))
@@ -114,7 +135,9 @@ def run(prog):
             if not at_level and node is None and kids[0] is not None and kids[1] is not None:
                 errs.append("a node labelled %s must have the smoothed low and high child of that node as its children, found "
                             "%s and %s" % (show(lbl)[:40], show(kids[0])[:40], show(kids[1])[:40]))
-            if not related:
+            if not related and any(e_.startswith("?") for e_ in errs):
+                errs.append("?node is labelled %s; the level it is placed at is looked up by a helper this rule does not read" % show(lbl)[:40])
+            elif not related:
                 errs.append("node is labelled %s without any test relating it to level `current`: when the node's "
                             "level is below `current` the skipped levels are never filled in (and the count is wrong)"
                             % show(lbl))
@@ -123,8 +146,9 @@ def run(prog):
                 errs.append("don't-care node has different children")
         arm = "node-var" if decision else "level-var"
         used[arm] = used.get(arm, 0) + 1
+        errs.sort(key=lambda e_: e_.startswith("?"))
         out.append(inst("SL", "%s:new#%s%s" % (fn.npath, arm, "" if used[arm] == 1 else "#%d" % used[arm]),
-                        VIOLATION if errs else OK, fn, cs.line,
+                        (UNDECIDED if errs[0].startswith("?") else VIOLATION) if errs else OK, fn, cs.line,
                         "; ".join(errs) if errs else "label %s, children one level down" % desc))
     # SL3: the argument is returned unchanged only once every level has been handled
     alts = []
